@@ -2,9 +2,11 @@ import FluentModel.Cache
 /-!
 # Driver for area `cache` (C17)
 
-payload = `<mode>:<k>:<needs>/<endNeed>;op;op;…`
+payload = `<mode>:<k>:<needs>/<endNeed>[:j];op;op;…`
 * `mode` = `a` (async: `Bundles::format_*` futures over `AsyncCache`) or `s` (sync: `format_*_sync` over `Cache`)
 * `k` = number of consumers (tasks `0 … k-1`), `needs` = `,`-separated `need` of item 0, 1, … (`-` = no items)
+* `:j` = consumers `2i` and `2i+1` are two requests joined in ONE task and share the waker of `2i`
+  (`grp c = c - c % 2`); the wake ids printed after `!` are then waker (group) ids
 * ops: `start:<c>:<depth>:<api>` (api ∈ v|s|m|n|e is only the shape of the Rust call; `e` = a batch key whose message formats with a resolver error), `poll:<c>`, `fire`, `pf` (prefetch)
 
 observation per piece: `hdr` | `s` | `busy` | `idle` | `P#<polls>.<pulls>!<wakes>` |
@@ -58,27 +60,30 @@ def stepObs (sync : Bool) (s : S) : Op → S × String
 def parseNeeds (t : String) : Option (List Nat) :=
   if t == "-" then some [] else (t.splitOn ",").mapM (·.toNat?)
 
+/-- waker sharing of a `:j` header: consumers `2i` and `2i+1` live in one task, whose waker is `2i` -/
+def joined (c : Task) : Task := c - c % 2
+
+def parseBody (mode k src : String) (grp : Task → Task) : Option (Bool × Nat × S) :=
+  match src.splitOn "/" with
+  | [needs, e] =>
+    match k.toNat?, parseNeeds needs, e.toNat? with
+    | some k, some ns, some e =>
+      if mode == "a" then some (false, k, init (ns.zipIdx) e grp)
+      else if mode == "s" then some (true, k, init ((ns.map fun _ => 0).zipIdx) 0 grp)
+      else none
+    | _, _, _ => none
+  | _ => none
+
 def parseHeader (h : String) : Option (Bool × Nat × S) :=
   match h.splitOn ":" with
-  | [mode, k, src] =>
-    match src.splitOn "/" with
-    | [needs, e] =>
-      match k.toNat?, parseNeeds needs, e.toNat? with
-      | some k, some ns, some e =>
-        if mode == "a" then some (false, k, init (ns.zipIdx) e)
-        else if mode == "s" then some (true, k, init ((ns.map fun _ => 0).zipIdx) 0)
-        else none
-      | _, _, _ => none
-    | _ => none
+  | [mode, k, src] => parseBody mode k src id
+  | [mode, k, src, "j"] => parseBody mode k src joined
   | _ => none
 
 def run (payload : String) : String :=
   match payload.splitOn ";" with
   | [] => "bad-case"
   | h :: ops =>
-    -- `…:j` (two requests joined in one task share a waker): the model gives every consumer a waker of its own;
-    -- those cases are judged by the check's oracle on the implementation only
-    if h.endsWith ":j" then "unsupported" else
     match parseHeader h with
     | none => "bad-case"
     | some (sync, k, s0) =>
